@@ -26,7 +26,7 @@ from ..cfg import explore, must_facts, holds, canon_fact
 from ..mutate import mutate, remove_stmts, replace_expr, replace_stmt, parse_stmt, parse_expr
 from ..model import AnalysisError
 from ..rules import tainted_names
-from ..x_valuewalk import single_assignment, own_nodes, const_collection, branch_flag, iter_order
+from ..x_valuewalk import single_assignment, own_nodes, const_collection, branch_flag, iter_order, alias_expand, xdotted, xunparse, walk
 
 TECHNIQUE = "loop-shape + guard-dominance facts, path-sensitive anchoring typestate, must-escaped dataflow into the %-format, handler protection, argument-binding tables"
 EXPLANATION = (
@@ -136,6 +136,15 @@ def rule_first_match(ck):
             except q.NotFoldable:
                 okc = isinstance(i, ast.BinOp) and isinstance(i.op, ast.Sub) and q.is_const(i.right, 1) and q.is_call(i.left, "len") and q.dotted(i.left.args[0]) == "self.default_router.rules"
         ck.ob(rid, ah, c, okc, "host-specific rules are inserted just before the catch-all (after earlier host rules, before the wildcard)")
+    # every call of add_handlers adds a *new* rule at that position: later handlers never join an earlier group
+    hp_, hh_ = ah.params()[1], ah.params()[2]
+    for n_, c in [(n_, c) for n_, c in ah.cfg.find(lambda x: x in ins)]:
+        ck.ob(rid, ah, c, ah.cfg.postdominates(n_, ah.cfg.entry), "a rule for the new handlers is inserted on every path of add_handlers (not merged into a rule added earlier)")
+        obj = alias_expand(ah.node, c.args[-1])
+        okr = q.is_call(obj, "Rule") and len(obj.args) >= 2 and q.is_call(obj.args[0], "HostMatches") and q.dotted(obj.args[0].args[0]) == hp_ and q.is_call(obj.args[1], "_ApplicationRouter") and len(obj.args[1].args) == 2 and q.dotted(obj.args[1].args[1]) == hh_
+        ck.ob(rid, ah, c, bool(okr), "the inserted rule is built in this call: HostMatches(%s) -> a fresh router over exactly %s" % (hp_, hh_))
+    others = [c for c in q.calls(ah.node) if isinstance(c.func, ast.Attribute) and c.func.attr in ("add_rules", "extend", "append", "insert") and hh_ in q.names_in(c) and q.dotted(c.func.value) not in ("self.wildcard_router", "self.default_router.rules")]
+    ck.ob(rid, ah, others[0] if others else ah.node, not others, "the new handlers are not appended to a router that already serves an earlier rule", construct="handlers merged into %s" % [q.unparse(c.func) for c in others])
     afh = ck.func(W, "Application.find_handler")
     calls = [c for c in q.calls(afh.node) if q.dotted(c.func) == "self.default_router.find_handler"]
     ck.ob(rid, afh, calls[0] if calls else afh.node, len(calls) == 1 and q.dotted(calls[0].args[0]) == afh.params()[1], "the application routes through its top router")
@@ -244,19 +253,55 @@ def rule_codec(ck):
         raise AnalysisError("PathMatches.match: match object not found")
     grp = [c for c in ast.walk(pm.node) if isinstance(c, ast.Call) and isinstance(c.func, ast.Attribute) and c.func.attr in ("groups", "groupdict", "group") and q.dotted(c.func.value) == mobj]
     ck.floor(rid, len(grp), 2, "group accesses in PathMatches.match")
-    comps = [x for x in ast.walk(pm.node) if isinstance(x, (ast.ListComp, ast.DictComp, ast.GeneratorExp))]
-    produced = {}
-    for g in grp:
-        host = [x for x in comps if any(g is y for y in ast.walk(x.generators[0].iter))]
-        ok = False
-        if host:
-            x = host[0]
-            elt = x.value if isinstance(x, ast.DictComp) else x.elt
-            tv = [t.id for t in ast.walk(x.generators[0].target) if isinstance(t, ast.Name)]
-            ok = q.is_call(elt, un.name) and len(elt.args) == 1 and q.dotted(elt.args[0]) in tv and len(x.generators) == 1 and not x.generators[0].ifs
-            if ok:
-                produced[id(x)] = g.func.attr
-        ck.ob(rid, pm, g, ok, "every captured group (%s()) is passed through %s, none skipped" % (g.func.attr, un.name))
+
+    def group_kind(it):
+        """which group accessor the (alias-expanded) iterable draws from"""
+        mforms = (mobj, xunparse(pm.node, ast.Name(id=mobj, ctx=ast.Load())))
+        ks = {c.func.attr for c in ast.walk(alias_expand(pm.node, it)) if isinstance(c, ast.Call) and isinstance(c.func, ast.Attribute) and c.func.attr in ("groups", "groupdict") and q.unparse(c.func.value) in mforms}
+        return next(iter(ks)) if len(ks) == 1 else None
+
+    comps = [x for x in ast.walk(pm.node) if isinstance(x, (ast.ListComp, ast.DictComp, ast.GeneratorExp)) and group_kind(x.generators[0].iter)]
+    loops_g = [x for x in ast.walk(pm.node) if isinstance(x, ast.For) and group_kind(x.iter)]
+    produced = {}      # id(comprehension) -> kind
+    produced_vars = {}  # container name -> kind
+    hosts = {}
+    for x in comps:
+        kind = group_kind(x.generators[0].iter)
+        elt = x.value if isinstance(x, ast.DictComp) else x.elt
+        tv = [t.id for t in ast.walk(x.generators[0].target) if isinstance(t, ast.Name)]
+        ok = q.is_call(elt, un.name) and len(elt.args) == 1 and q.dotted(elt.args[0]) in tv and len(x.generators) == 1 and not x.generators[0].ifs
+        hosts.setdefault(kind, []).append((x, ok))
+        if ok:
+            produced[id(x)] = kind
+    for lp in loops_g:
+        kind = group_kind(lp.iter)
+        tv = [t.id for t in ast.walk(lp.target) if isinstance(t, ast.Name)]
+        sinks = []
+        for st in ast.walk(lp):
+            if isinstance(st, ast.Call) and isinstance(st.func, ast.Attribute) and st.func.attr == "append" and isinstance(st.func.value, ast.Name):
+                sinks.append((st.func.value.id, st.args[0]))
+            elif isinstance(st, ast.Assign) and isinstance(st.targets[0], ast.Subscript) and isinstance(st.targets[0].value, ast.Name):
+                sinks.append((st.targets[0].value.id, st.value))
+        if not sinks:
+            raise AnalysisError("PathMatches.match: loop over %s() does not fill a container" % kind)
+        ok = all(q.is_call(alias_expand(pm.node, v), un.name) and q.dotted(alias_expand(pm.node, v).args[0]) in tv for _, v in sinks) and not any(isinstance(y, (ast.Continue, ast.Break, ast.If)) for y in ast.walk(lp))
+        hosts.setdefault(kind, []).append((lp, ok))
+        if ok:
+            for nm, _ in sinks:
+                produced_vars[nm] = kind
+    for kind in ("groups", "groupdict"):
+        hs = hosts.get(kind, [])
+        if not hs:
+            if any(g.func.attr == kind for g in grp):
+                raise AnalysisError("PathMatches.match: %s() is not consumed by a recognised comprehension or loop" % kind)
+            continue
+        for x, ok in hs:
+            ck.ob(rid, pm, x.generators[0].iter if not isinstance(x, ast.For) else x.iter, ok, "every captured group (%s()) is passed through %s, none skipped" % (kind, un.name))
+    for st in own_nodes(pm.node):
+        if isinstance(st, (ast.Assign, ast.AnnAssign)) and st.value is not None and id(st.value) in produced:
+            for t_ in (st.targets if isinstance(st, ast.Assign) else [st.target]):
+                if isinstance(t_, ast.Name):
+                    produced_vars[t_.id] = produced[id(st.value)]
     # returned dict
     rets = [r for r in own_nodes(pm.node) if isinstance(r, ast.Return) and isinstance(r.value, ast.Call) and q.is_call(r.value, "dict") or isinstance(r, ast.Return) and isinstance(r.value, ast.Dict) and r.value.keys]
     ck.floor(rid, len(rets), 1, "parameter-returning exits of PathMatches.match")
@@ -270,18 +315,18 @@ def rule_codec(ck):
             okv = False
             if isinstance(v, ast.Name):
                 vals = [st.value for st in own_nodes(pm.node) if isinstance(st, (ast.Assign, ast.AnnAssign)) and v.id in q.assigned_paths(st) and st.value is not None]
-                okv = bool(vals) and all((isinstance(x, (ast.List, ast.Dict)) and not (getattr(x, "elts", None) or getattr(x, "keys", None))) or produced.get(id(x)) == kind for x in vals) and any(produced.get(id(x)) == kind for x in vals)
+                okv = produced_vars.get(v.id) == kind and all((isinstance(x, (ast.List, ast.Dict)) and not (getattr(x, "elts", None) or getattr(x, "keys", None))) or produced.get(id(x)) == kind for x in vals)
             elif v is not None:
                 okv = produced.get(id(v)) == kind
             ck.ob(rid, pm, r, okv, "%s carries the unescaped %s() of the match (or is empty)" % (key, kind), construct="%s from %s" % (key, kind))
     # named patterns deliver keyword arguments, positional patterns positional ones
     named = branch_flag(pm.cfg, "self.regex.groupindex", True, [])
     unnamed = branch_flag(pm.cfg, "self.regex.groupindex", False, [])
-    for x in comps:
-        kind = produced.get(id(x))
+    for x in comps + loops_g:
+        kind = produced.get(id(x)) if not isinstance(x, ast.For) else group_kind(x.iter)
         if kind is None:
             continue
-        nodes = [n for n in pm.cfg.stmt_nodes(lambda n: n.kind == "stmt") if any(x is y for y in ast.walk(n.ast))]
+        nodes = [n for n in pm.cfg.stmt_nodes(lambda n: n.kind == "stmt") if any(x is y for y in ast.walk(n.ast))] if not isinstance(x, ast.For) else [n for n in pm.cfg.nodes if n.kind == "for" and n.ast is x]
         for n in nodes:
             if kind == "groupdict":
                 ck.ob(rid, pm, n.ast, named.get(n.id, False), "keyword arguments are built (from groupdict) exactly for patterns with named groups")
@@ -295,21 +340,42 @@ def rule_codec(ck):
         ck.ob(rid, rv, c, plus is not None and q.is_const(plus, False), "reverse() escapes arguments in path mode (plus=False), the inverse of what match() undoes")
         a0 = c.args[0] if c.args else None
         ck.ob(rid, rv, c, isinstance(a0, ast.Call) and q.call_attr(a0) == "utf8", "arguments are UTF-8 encoded before escaping")
-    # non-string arguments (numbers) are stringified before encoding
+    # non-string arguments (numbers) are stringified before encoding: case analysis over the argument's type
+    from .c21 import _type_oracle
+    m_ = ck.repo.module(R)
+    loops_r = [n for n in rv.cfg.nodes if n.kind == "for" and n.id in rv.cfg.reachable()]
     for c in esc:
         a0 = c.args[0] if c.args else None
         inner = a0.args[0] if isinstance(a0, ast.Call) and a0.args else None
-        if isinstance(inner, ast.Name):
-            conv = [n for n in rv.cfg.stmt_nodes(lambda n: n.kind == "stmt" and isinstance(n.ast, ast.Assign) and inner.id in q.assigned_paths(n.ast) and q.is_call(n.ast.value, "str") and q.dotted(n.ast.value.args[0]) == inner.id)]
-            okc = False
-            for n in conv:
-                for t in rv.cfg.stmt_nodes(lambda t: t.kind == "test"):
-                    if q.is_call(t.ast, "isinstance") and q.dotted(t.ast.args[0]) == inner.id and branch_flag(rv.cfg, q.unparse(t.ast), False, []).get(n.id, False):
-                        okc = True
-            inline = False
-        else:
-            okc = any(q.is_call(x, "str") for x in ast.walk(a0)) if a0 is not None else False
-        ck.ob(rid, rv, c, okc, "arguments that are neither str nor bytes are converted with str() before they are encoded")
+        if not isinstance(inner, ast.Name) or len(loops_r) != 1 or not isinstance(loops_r[0].ast.target, ast.Name):
+            raise AnalysisError("PathMatches.reverse: argument conversion not understood: %s" % q.unparse(c))
+        lv = loops_r[0].ast.target.id
+        cnodes = rv.cfg.nodes_for(c)
+        for tau in ("str", "bytes", "int"):
+            def transfer(n, tags, lv=lv):
+                if n.kind == "for" and n.ast is loops_r[0].ast:
+                    return frozenset({(lv, "raw")})
+                if n.kind == "stmt" and isinstance(n.ast, (ast.Assign, ast.AnnAssign)) and n.ast.value is not None:
+                    tg = n.ast.targets if isinstance(n.ast, ast.Assign) else [n.ast.target]
+                    if len(tg) == 1 and isinstance(tg[0], ast.Name):
+                        d = dict(tags)
+                        v = n.ast.value
+                        if q.is_call(v, "str") and len(v.args) == 1 and isinstance(v.args[0], ast.Name) and d.get(v.args[0].id) in ("raw", "str"):
+                            d[tg[0].id] = "str"
+                        elif isinstance(v, ast.Name) and v.id in d:
+                            d[tg[0].id] = d[v.id]
+                        else:
+                            d[tg[0].id] = "?"
+                        return frozenset(d.items())
+                return tags
+            r_ = walk(rv.cfg, [(rv.cfg.entry.id, frozenset())], transfer, decide=_type_oracle(ck, m_, lv, tau))
+            for cn in cnodes:
+                for tags in r_.get(cn.id, ()):
+                    tag = dict(tags).get(inner.id)
+                    if tag == "?" or tag is None:
+                        raise AnalysisError("PathMatches.reverse: value encoded for a %s argument is not understood" % tau)
+                    want = "str" if tau == "int" else "raw"
+                    ck.ob(rid, rv, c, tag == want, "reverse(<%s argument>): %s" % (tau if tau != "int" else "non-string", "converted with str() before it is encoded" if tau == "int" else "encoded as it is (no str() of bytes/str)"), construct="reverse arg type=%s tag=%s" % (tau, tag))
     # every argument is converted and all of them are substituted
     loops = [n for n in own_nodes(rv.node) if isinstance(n, ast.For)]
     args_p = rv.node.args.vararg.arg if rv.node.args.vararg else None
@@ -409,7 +475,7 @@ def rule_format(ck):
         raise AnalysisError("_find_groups: no joined piece list returned")
     pieces = joined.pop()
     sinks = [(n, c) for n, c in cfg.find(lambda x: isinstance(x, ast.Call) and isinstance(x.func, ast.Attribute) and q.dotted(x.func.value) == pieces and x.func.attr in ("append", "extend", "insert"))]
-    ck.floor(rid, len(sinks), 2, "piece stores in _find_groups")
+    ck.floor(rid, len(sinks), 1, "piece stores in _find_groups")
 
     def transfer(n, esc):
         if n.kind == "for":
@@ -436,6 +502,12 @@ def rule_format(ck):
         bad = sorted({nm for _f, esc in states for nm in _unescaped(arg, tainted, esc)})
         ck.ob(rid, fg, c, bool(states) and not bad, "pattern text stored into the %%-format is '%%'-escaped on every path%s" % ("" if not bad else " (unescaped: %s)" % bad))
         lits = [k.value for k in ast.walk(arg) if isinstance(k, ast.Constant) and isinstance(k.value, str) and not any(_is_pct_escape(p_) and k in p_.args for p_ in ast.walk(arg))]
+        for nm in [x.id for x in ast.walk(arg) if isinstance(x, ast.Name) and x.id not in tainted and not any(_is_pct_escape(p_) and x in ast.walk(p_) for p_ in ast.walk(arg))]:
+            vals_ = [st_.value for st_ in q.stores_to(fg.node, nm)]
+            if vals_ and all(isinstance(v_, ast.Constant) and isinstance(v_.value, str) for v_ in vals_):
+                lits += [v_.value for v_ in vals_]
+            elif vals_:
+                raise AnalysisError("_find_groups: piece component %s is neither pattern text nor a string constant" % nm)
         ck.ob(rid, fg, c, all(s.replace("%s", "").replace("%%", "").count("%") == 0 for s in lits), "literal pieces contain only %s directives", construct="literals %s" % lits)
     return fmt_attr
 
@@ -444,7 +516,7 @@ def rule_unescape(ck):
     rid = "C31.unescape"
     fg = ck.func(R, "PathMatches._find_groups")
     calls = [c for c in q.calls(fg.node) if q.is_call(c, "re_unescape")]
-    ck.floor(rid, len(calls), 2, "re_unescape calls in _find_groups")
+    ck.floor(rid, len(calls), 1, "re_unescape calls in _find_groups")
     pm = q.parent_map(fg.node)
     for c in calls:
         h = q.protected_by(pm, c, "ValueError")
@@ -531,23 +603,29 @@ def rule_unescape(ck):
     for st in own_nodes(rr.node):
         if isinstance(st, ast.Assign) and q.is_call(st.value, p + ".group") and q.is_const(st.value.args[0], 1):
             gv = q.dotted(st.targets[0])
-    if gv is None:
-        raise AnalysisError("_re_unescape_replacement: captured character variable not found")
     raises = rr.cfg.stmt_nodes(lambda n: n.kind == "stmt" and isinstance(n.ast, ast.Raise))
     ck.ob(rid, rr, rr.node, len(raises) >= 1, "escapes that are not quoted literals (\\d, \\w, \\b ...) are rejected", construct="raise sites %d" % len(raises))
-    set_name = None
+    # membership tests on the escaped character (through aliases): <char> in <set>
+    char_forms = {"%s.group(1)" % p, "%s.group(1)[0]" % p, "%s[1]" % p, "%s[1][0]" % p}
+    mem_tests = []
+    for t in rr.cfg.stmt_nodes(lambda t: t.kind == "test"):
+        e = t.ast
+        if isinstance(e, ast.Compare) and len(e.ops) == 1 and isinstance(e.ops[0], (ast.In, ast.NotIn)) and xunparse(rr.node, e.left) in char_forms and isinstance(e.comparators[0], ast.Name):
+            mem_tests.append((e, isinstance(e.ops[0], ast.In), e.comparators[0].id))
+    set_name = mem_tests[0][2] if mem_tests and len({x[2] for x in mem_tests}) == 1 else None
+
+    def member_at(node, want):
+        return any(branch_flag(rr.cfg, q.unparse(e), (pos == want), []).get(node.id, False) for e, pos, _ in mem_tests)
+
     for r in raises:
         ex = r.ast.exc
         cls = q.dotted(ex.func) if isinstance(ex, ast.Call) else q.dotted(ex)
         ck.ob(rid, rr, r.ast, cls == "ValueError", "an escape that is not a quoted literal is reported with ValueError (what _find_groups catches)")
-        mem = [t for t, pol in facts[r.id] if pol and t.startswith(("%s[0] in " % gv, "%s in " % gv))]
-        ck.ob(rid, rr, r.ast, len(mem) == 1, "the rejection is decided by membership of the escaped character in the alphanumeric set")
-        if mem:
-            set_name = mem[0].split(" in ", 1)[1]
+        ck.ob(rid, rr, r.ast, member_at(r, True), "the rejection is decided by membership of the escaped character in the alphanumeric set")
     for r in rr.cfg.stmt_nodes(lambda n: n.kind == "stmt" and isinstance(n.ast, ast.Return)):
-        ck.ob(rid, rr, r.ast, q.dotted(r.ast.value) == gv or (q.is_call(r.ast.value, p + ".group") and q.is_const(r.ast.value.args[0], 1)), "a quoted literal is replaced by the character itself (backslash dropped)")
+        ck.ob(rid, rr, r.ast, xunparse(rr.node, r.ast.value) in ("%s.group(1)" % p, "%s[1]" % p), "a quoted literal is replaced by the character itself (backslash dropped)")
         if set_name:
-            ck.ob(rid, rr, r.ast, any((not pol) and t.endswith(" in " + set_name) for t, pol in facts[r.id]), "and only when the character is not alphanumeric")
+            ck.ob(rid, rr, r.ast, member_at(r, False), "and only when the character is not alphanumeric")
     if set_name and set_name in m.assigns:
         coll = m.assigns[set_name]
         chars = None
